@@ -364,6 +364,38 @@ func (s *verifC20Scenario) step(cmd string, kv map[string]string) (res string) {
 			return "err=" + e
 		}
 		return fmt.Sprintf("ok pos=%s cursor=%s pubs=%s", s.pos(r.Position), verifC20Hex(r.Cursor), s.pubs(r.Publications))
+	case "pages":
+		// the client's pagination loop: from the empty cursor while the returned cursor is non-empty
+		lim, err0 := strconv.Atoi(kv["lim"])
+		asc, ok1 := b("asc")
+		if !(err0 == nil && ok1) {
+			return "bad-op"
+		}
+		var keys, sizes []string
+		cursor := ""
+		done := 0
+		n := 0
+		for n < 64 {
+			r, err := s.broker.ReadState(ctx, ch, MapReadStateOptions{Cursor: cursor, Limit: lim, Asc: asc})
+			if err != nil {
+				return "err=" + verifC20Err(err)
+			}
+			n++
+			for _, p := range r.Publications {
+				keys = append(keys, verifC20Hex(p.Key))
+			}
+			sizes = append(sizes, strconv.Itoa(len(r.Publications)))
+			if r.Cursor == "" {
+				done = 1
+				break
+			}
+			cursor = r.Cursor
+		}
+		ks := "-"
+		if len(keys) > 0 {
+			ks = strings.Join(keys, ",")
+		}
+		return fmt.Sprintf("ok n=%d done=%d sizes=%s keys=%s", n, done, strings.Join(sizes, ","), ks)
 	case "stream":
 		since, ok0 := s.parsePos(kv["since"])
 		lim, err1 := strconv.Atoi(kv["lim"])
